@@ -108,6 +108,25 @@ func neutral(c *mon.Ctx, tag byte, body []byte) {
 
 // lang draws a 3-byte language code: usual lower-case codes, the same codes in other spellings (upper
 // case, mixed case, padded with space / NUL / '@'), and arbitrary bytes; a decoder must return its own bytes.
+// printed prints the descriptor in one of the ways a caller can (half of the time) and says whether it did.
+func printed(r *gen.Rand, d psi.PmtDescriptor) bool {
+	switch r.Intn(8) {
+	case 0:
+		_ = d.Format()
+	case 1:
+		_ = fmt.Sprint(d)
+	case 2:
+		_ = fmt.Sprintf("%v %s", d, d)
+	case 3:
+		// through the stream and the PMT that carry it
+		es := psi.NewPmtElementaryStream(0x06, 0x101, []psi.PmtDescriptor{d})
+		_ = fmt.Sprint(es)
+	default:
+		return false
+	}
+	return true
+}
+
 func lang(r *gen.Rand) string {
 	base := []string{"eng", "spa", "fra", "deu", "zho", "und"}[r.Intn(6)]
 	if r.Chance(3) {
@@ -184,6 +203,12 @@ func own(c *mon.Ctx, r *gen.Rand) {
 	if g := d.DecodeIso639AudioType(); g != at {
 		c.Fail("decode:iso639-audio-type", fmt.Sprintf("DecodeIso639AudioType = %#x, encoded %#x", g, at), wit{Case: "iso639", Body: mon.Hex(body), Detail: fmt.Sprint(g)})
 	}
+	// printing is a read-only operation: the same answers afterwards
+	if printed(r, d) {
+		if g := d.DecodeIso639LanguageCode(); g != l || d.DecodeIso639AudioType() != at {
+			c.Fail("decode:iso639-after-printing", fmt.Sprintf("after the descriptor was printed DecodeIso639LanguageCode = %q (encoded %q), audio type %#x (encoded %#x)", g, l, d.DecodeIso639AudioType(), at), wit{Case: "iso639", Body: mon.Hex(body), Detail: g})
+		}
+	}
 	// the decoders of the other kinds, asked on the same object after its own decoder has answered
 	if g := d.DecodeTTMLIso639LanguageCode(); g != "" {
 		c.Fail("neutral:DecodeTTMLIso639LanguageCode-after-own-decoder", fmt.Sprintf("DecodeTTMLIso639LanguageCode on an ISO-639 language descriptor = %q after DecodeIso639LanguageCode had been called on it", g), wit{Case: "iso639", Body: mon.Hex(body), Detail: g})
@@ -213,7 +238,31 @@ func own(c *mon.Ctx, r *gen.Rand) {
 	l = lang(r)
 	purpose := r.PickByte([]byte{0, 1, 2, 0x10, 0x11, 0x12, 0x30, 0x31, byte(r.Intn(64))})
 	body = append(append([]byte{ext}, l...), purpose<<2|byte(r.Intn(4)))
-	body = append(body, r.Bytes(r.Intn(6))...)
+	// the rest of the fixed part and what it announces (ETSI EN 303 560): essential_font_usage_flag,
+	// qualifier_present_flag, reserved, dvb_ttml_profile_count; the profiles; the qualifier; the font ids;
+	// text_length and the service name
+	fonts, qual, profiles := r.Bool(), r.Bool(), r.Intn(4)
+	fl := byte(0x30 | profiles)
+	if fonts {
+		fl |= 0x80
+	}
+	if qual {
+		fl |= 0x40
+	}
+	body = append(body, fl)
+	body = append(body, r.Bytes(profiles)...)
+	if qual {
+		body = append(body, r.Bytes(4)...)
+	}
+	if fonts {
+		n := r.Intn(3)
+		body = append(body, byte(n))
+		for k := 0; k < n; k++ {
+			body = append(body, r.Byte()&0x7f)
+		}
+	}
+	name := r.Bytes(r.Intn(6))
+	body = append(append(body, byte(len(name))), name...)
 	d = psi.NewPmtDescriptor(0x7f, body)
 	// an extension descriptor of another kind (tag extension other than 0x20) is not a TTML descriptor: the
 	// statement defines no language / purpose for it (decoded as if it were one, or the neutral value)
@@ -226,6 +275,11 @@ func own(c *mon.Ctx, r *gen.Rand) {
 	}
 	if g := d.DecodeTTMLSubtitlePurpose(); wellFormed && g != purpose {
 		c.Fail("decode:ttml-purpose", fmt.Sprintf("DecodeTTMLSubtitlePurpose = %#x, encoded %#x", g, purpose), wit{Case: "ttml", Body: mon.Hex(body), Detail: fmt.Sprint(g)})
+	}
+	if wellFormed && printed(r, d) {
+		if g := d.DecodeTTMLIso639LanguageCode(); g != l || d.DecodeTTMLSubtitlePurpose() != purpose {
+			c.Fail("decode:ttml-after-printing", fmt.Sprintf("after the descriptor was printed DecodeTTMLIso639LanguageCode = %q (encoded %q), purpose %#x (encoded %#x)", g, l, d.DecodeTTMLSubtitlePurpose(), purpose), wit{Case: "ttml", Body: mon.Hex(body), Detail: g})
+		}
 	}
 	if g := d.DecodeIso639LanguageCode(); g != "" {
 		c.Fail("neutral:DecodeIso639LanguageCode-after-own-decoder", fmt.Sprintf("DecodeIso639LanguageCode on a DVB extension descriptor = %q after the TTML decoders had been called on it", g), wit{Case: "ttml", Body: mon.Hex(body), Detail: g})
@@ -327,6 +381,22 @@ func run(c *mon.Ctx) {
 		m, err := psi.NewPMT(pay)
 		if err != nil || len(m.ElementaryStreams()) != n {
 			c.Fail("streamtype:pmt-setup", fmt.Sprintf("a %d-stream PMT was not decoded: %v", n, err), wit{Case: "pmt", Body: mon.Hex(pay)})
+			return
+		}
+		// the same section decoded a second time, and streams removed from that second object: the first one still
+		// answers for every PID of the section
+		if m2, err := psi.NewPMT(append([]byte{}, pay...)); err == nil && k%2 == 1 {
+			var drop []int
+			for j := 0; j < n; j++ {
+				if r.Chance(3) {
+					drop = append(drop, 0x100+j)
+				}
+			}
+			m2.RemoveElementaryStreams(drop)
+			c.Count("streamtype.other_object_of_the_same_section_edited")
+		}
+		if len(m.ElementaryStreams()) != n {
+			c.Fail("streamtype:pmt-streams-after-edit-of-another-object", fmt.Sprintf("a PMT lists %d of its %d streams after streams were removed from another PMT object decoded from the same bytes", len(m.ElementaryStreams()), n), wit{Case: "pmt", Body: mon.Hex(pay)})
 			return
 		}
 		for j, es := range m.ElementaryStreams() {
